@@ -26,6 +26,7 @@ import (
 const (
 	vsyncPath   = "github.com/pinealctx/neptune/zverif/vsync"
 	vatomicPath = "github.com/pinealctx/neptune/zverif/vatomic"
+	vtimePath   = "github.com/pinealctx/neptune/zverif/vtime"
 )
 
 func die(f string, a ...interface{}) {
@@ -49,7 +50,7 @@ func main() {
 	replace := map[string]string{}
 
 	// virtual packages
-	for _, vp := range []string{"vsync", "vatomic"} {
+	for _, vp := range []string{"vsync", "vatomic", "vtime"} {
 		files, _ := filepath.Glob(filepath.Join(*verif, "engine", vp, "*.go"))
 		if len(files) == 0 {
 			die("no sources for virtual package %s", vp)
@@ -73,6 +74,16 @@ func main() {
 		return nil
 	})
 
+	timeRedirect = map[string]bool{}
+	if tr, err := os.ReadFile(filepath.Join(*verif, "engine", "time_redirect.txt")); err == nil {
+		for _, line := range strings.Split(string(tr), "\n") {
+			line = strings.TrimSpace(line)
+			if line != "" && !strings.HasPrefix(line, "#") {
+				timeRedirect[filepath.Join(*repo, line)] = true
+			}
+		}
+	}
+	schedDirs := map[string]bool{}
 	if *mode == "sched" {
 		lst, err := os.ReadFile(filepath.Join(*verif, "engine", "sched_packages.txt"))
 		if err != nil {
@@ -95,7 +106,7 @@ func main() {
 				}
 				src := filepath.Join(dir, n)
 				dst := filepath.Join(*out, "rw", line, n)
-				changed, err := rewriteFile(src, dst)
+				changed, err := rewriteFile(src, dst, true)
 				if err != nil {
 					die("%s: %v", src, err)
 				}
@@ -103,6 +114,25 @@ func main() {
 					replace[src] = dst
 				}
 			}
+			schedDirs[dir] = true
+		}
+	}
+	// clock redirect for files outside the sched-rewritten set (plain mode, or packages not rewritten)
+	for src := range timeRedirect {
+		if schedDirs[filepath.Dir(src)] {
+			continue
+		}
+		if _, err := os.Stat(src); err != nil {
+			die("time redirect: %v", err)
+		}
+		rel, _ := filepath.Rel(*repo, src)
+		dst := filepath.Join(*out, "rw", rel)
+		changed, err := rewriteFile(src, dst, false)
+		if err != nil {
+			die("%s: %v", src, err)
+		}
+		if changed {
+			replace[src] = dst
 		}
 	}
 	keys := make([]string, 0, len(replace))
@@ -324,7 +354,9 @@ func (r *rw) list(in []ast.Stmt) []ast.Stmt {
 	return out
 }
 
-func rewriteFile(src, dst string) (bool, error) {
+var timeRedirect map[string]bool
+
+func rewriteFile(src, dst string, sched bool) (bool, error) {
 	data, err := os.ReadFile(src)
 	if err != nil {
 		return false, err
@@ -348,9 +380,36 @@ func rewriteFile(src, dst string) (bool, error) {
 	}
 	r := &rw{fset: fset, done: map[ast.Node]bool{}}
 	changed := false
+	// clock redirect
+	usedVtime := false
+	if timeRedirect[src] {
+		ast.Inspect(f, func(n ast.Node) bool {
+			if se, ok := n.(*ast.SelectorExpr); ok {
+				if id, ok := se.X.(*ast.Ident); ok && id.Name == "time" && id.Obj == nil {
+					switch se.Sel.Name {
+					case "Now", "Since", "Sleep":
+						id.Name = "vtime__"
+						usedVtime = true
+					}
+				}
+			}
+			return true
+		})
+		if usedVtime {
+			changed = true
+			spec := &ast.ImportSpec{Name: ast.NewIdent("vtime__"), Path: &ast.BasicLit{Kind: token.STRING, Value: strconv.Quote(vtimePath)}}
+			f.Decls = append([]ast.Decl{&ast.GenDecl{Tok: token.IMPORT, Specs: []ast.Spec{spec}}}, f.Decls...)
+			// keep the original "time" import used
+			keep := &ast.GenDecl{Tok: token.VAR, Specs: []ast.Spec{&ast.ValueSpec{Names: []*ast.Ident{ast.NewIdent("_")}, Values: []ast.Expr{&ast.SelectorExpr{X: ast.NewIdent("time"), Sel: ast.NewIdent("Now")}}}}}
+			f.Decls = append(f.Decls, keep)
+		}
+	}
 	// imports
 	for _, im := range f.Imports {
 		p, _ := strconv.Unquote(im.Path.Value)
+		if !sched {
+			break
+		}
 		switch p {
 		case "sync":
 			if im.Name != nil && im.Name.Name != "sync" {
@@ -368,39 +427,43 @@ func rewriteFile(src, dst string) (bool, error) {
 			changed = true
 		}
 	}
-	ast.Inspect(f, func(n ast.Node) bool {
-		switch x := n.(type) {
-		case *ast.BlockStmt:
-			x.List = r.list(x.List)
-		case *ast.CaseClause:
-			x.Body = r.list(x.Body)
-		case *ast.CommClause:
-			x.Body = r.list(x.Body)
-		}
-		return true
-	})
+	if sched {
+		ast.Inspect(f, func(n ast.Node) bool {
+			switch x := n.(type) {
+			case *ast.BlockStmt:
+				x.List = r.list(x.List)
+			case *ast.CaseClause:
+				x.Body = r.list(x.Body)
+			case *ast.CommClause:
+				x.Body = r.list(x.Body)
+			}
+			return true
+		})
+	}
 	// verification: nothing concurrency-relevant may be left unrewritten
-	ast.Inspect(f, func(n ast.Node) bool {
-		switch x := n.(type) {
-		case *ast.GoStmt:
-			r.errs = append(r.errs, fmt.Sprintf("%s: go statement in unsupported position", fset.Position(x.Pos())))
-		case *ast.SelectStmt:
-			r.errs = append(r.errs, fmt.Sprintf("%s: select in unsupported position", fset.Position(x.Pos())))
-		case *ast.SendStmt:
-			if !r.done[x] {
-				r.errs = append(r.errs, fmt.Sprintf("%s: send in unsupported position", fset.Position(x.Pos())))
+	if sched {
+		ast.Inspect(f, func(n ast.Node) bool {
+			switch x := n.(type) {
+			case *ast.GoStmt:
+				r.errs = append(r.errs, fmt.Sprintf("%s: go statement in unsupported position", fset.Position(x.Pos())))
+			case *ast.SelectStmt:
+				r.errs = append(r.errs, fmt.Sprintf("%s: select in unsupported position", fset.Position(x.Pos())))
+			case *ast.SendStmt:
+				if !r.done[x] {
+					r.errs = append(r.errs, fmt.Sprintf("%s: send in unsupported position", fset.Position(x.Pos())))
+				}
+			case *ast.UnaryExpr:
+				if x.Op == token.ARROW && !r.done[x] {
+					r.errs = append(r.errs, fmt.Sprintf("%s: receive in unsupported position", fset.Position(x.Pos())))
+				}
+			case *ast.CallExpr:
+				if id, ok := x.Fun.(*ast.Ident); ok && id.Name == "close" && len(x.Args) == 1 {
+					r.errs = append(r.errs, fmt.Sprintf("%s: close() in unsupported position", fset.Position(x.Pos())))
+				}
 			}
-		case *ast.UnaryExpr:
-			if x.Op == token.ARROW && !r.done[x] {
-				r.errs = append(r.errs, fmt.Sprintf("%s: receive in unsupported position", fset.Position(x.Pos())))
-			}
-		case *ast.CallExpr:
-			if id, ok := x.Fun.(*ast.Ident); ok && id.Name == "close" && len(x.Args) == 1 {
-				r.errs = append(r.errs, fmt.Sprintf("%s: close() in unsupported position", fset.Position(x.Pos())))
-			}
-		}
-		return true
-	})
+			return true
+		})
+	}
 	if len(r.errs) > 0 {
 		return false, fmt.Errorf("%s", strings.Join(r.errs, "; "))
 	}
